@@ -141,7 +141,10 @@ def oracle_client_request(case):
 
 
 def scheme_cases(tier):
-    for scheme in ["ftp", "ws", "wss", "file", "", "unix+https", "unix+ftp", "unix+", "gopher", "httpx", "xhttp", "http+unix", "unix", "mailto", "jsonrpc"]:
+    # compound schemes: only the prefix "unix" is known; everything else in front of (or behind) a "+" is no scheme of this library
+    compound = [a + "+" + b for a in ("tcp", "git", "svn", "x", "unix2", "unixx", "http", "https", "", "unix+unix") for b in ("http", "https")] + \
+               ["unix+http+x", "http+", "+http", "unix+http+http", "un+ix+http"]
+    for scheme in ["ftp", "ws", "wss", "file", "", "unix+https", "unix+ftp", "unix+", "gopher", "httpx", "xhttp", "http+unix", "unix", "mailto", "jsonrpc"] + compound:
         for rest in ["://localhost/", "://localhost:80/x?y=1", ":///tmp/s.sock"]:
             yield {"uri": scheme + rest, "expect": "reject"}
     for scheme in ["http", "https", "HTTP", "Https", "unix+http", "UNIX+HTTP"]:
